@@ -62,21 +62,6 @@ def obsJ (hex : Bool) (hdr : Bytes) : Obs → Json
   | .unit => Json.str "unit"
   | .err => Json.str "err"
 
-def joinTab (fields : List Bytes) : Bytes :=
-  (match fields with
-   | [] => []
-   | f :: r => r.foldl (fun acc x => acc ++ [9] ++ x) f) ++ [10]
-
-/-- `OneLineBuffer.join_fields` / `FastQBuffer.join_fields` on one entry -/
-def joinFastq (fields : List Bytes) : Bytes :=
-  match fields with
-  | [n, s, q] => [64] ++ n ++ [10] ++ s ++ [10] ++ [43, 10] ++ q ++ [10]
-  | _ => []
-def joinFasta (fields : List Bytes) : Bytes :=
-  match fields with
-  | [n, s] => [62] ++ n ++ [10] ++ s ++ [10]
-  | _ => []
-
 def handle (op : String) (j : Json) : Except String Json := do
   match op with
   | "run" =>
@@ -99,7 +84,9 @@ def handle (op : String) (j : Json) : Except String Json := do
     let drop ← getNat j "drop"
     let lz := (runLazy k ops (tabs.map Lazy.ofFile)).drop drop
     let eg := (runEager k ops (tabs.map (Eager.ofFile nF))).drop drop
-    let m := Json.mkObj [("lazy", Json.arr (lz.map (obsJ hex hdr)).toArray), ("eager", Json.arr (eg.map (obsJ hex hdr)).toArray)]
+    -- `dom`: the run lies in the domain of the equivalence theorems (`runOKb_sound` gives `RunOK`)
+    let m := Json.mkObj [("lazy", Json.arr (lz.map (obsJ hex hdr)).toArray), ("eager", Json.arr (eg.map (obsJ hex hdr)).toArray),
+      ("dom", Json.bool (runOKb k ops (tabs.map Lazy.ofFile)))]
     pure (reply m (some (Json.mkObj [("spec", Json.arr (eg.map (obsJ hex hdr)).toArray)])))
   | _ => throw s!"C05: unknown op {op}"
 
